@@ -129,7 +129,8 @@ class FakeResponse:
         self.headers.setdefault("Content-Length", str(len(wire)))
         self.raw = _RawBody(self, wire)
         self.reason = {200: "OK", 206: "Partial Content", 404: "Not Found", 500: "Internal Server Error",
-                       503: "Service Unavailable"}.get(status_code, "")
+                       503: "Service Unavailable", 410: "Gone", 403: "Forbidden", 401: "Unauthorized",
+                       429: "Too Many Requests", 502: "Bad Gateway", 504: "Gateway Timeout"}.get(status_code, "")
         self.encoding = None
 
     @property
@@ -150,8 +151,11 @@ class FakeResponse:
     def iter_content(self, chunk_size=1, decode_unicode=False):
         import requests as _rq
         w = self._world
-        piece = max(1, min(chunk_size or 1, (w.chunk if w is not None else 4096)))
         data = self._content
+        # a body arrives in at most ~24 network pieces (as in sim_download): a reader asking for large blocks
+        # while the run's chunk knob is tiny must not eat the run's step budget
+        net = max((w.chunk if w is not None else 4096), len(data) // 24 + 1)
+        piece = max(1, min(chunk_size or 1, net))
         n = 0
         for i in range(0, len(data), piece):
             if self._drop_after is not None and n >= self._drop_after:
